@@ -267,7 +267,7 @@ def _enum_cases(max_nodes, maxlen, index, count):
 
 def plan(tier, seed):
     nshards = 16
-    examples = 60 if tier == "quick" else 1000
+    examples = 150 if tier == "quick" else 1000
     max_nodes, maxlen = (4, 3) if tier == "quick" else (5, 4)
     tasks = [{"engine": "enum", "max_nodes": max_nodes, "maxlen": maxlen, "index": i, "count": nshards * 2} for i in range(nshards * 2)]
     tasks += [{"engine": "hyp", "examples": examples, "seed": seed * 1000 + i} for i in range(nshards)]
